@@ -460,9 +460,9 @@ func sstDrain(it sstables.SSTableIteratorI, max int) string {
 }
 
 type sstProbe struct {
-	kind   string // get has scan from range
-	a, b   []byte
-	bloom  bool
+	kind  string // get has scan from range
+	a, b  []byte
+	bloom bool
 }
 
 func (p sstProbe) String() string {
@@ -848,6 +848,11 @@ func sstSig(c *sstCase, ref *sstRef, cfg sstReaderCfg, p sstProbe, indexPath str
 				return "disk-index:eof-in-binary-search"
 			}
 		}
+		// findAt caches the (empty) record of a FAILED SeekNext and hands it out later without the error;
+		// an empty record compares equal to the empty key
+		if (p.kind == "get" || p.kind == "has") && len(p.a) == 0 && (len(ref.acc) == 0 || len(ref.acc[0].key) != 0) {
+			return "disk-index:cached-failed-read-matches-empty-key"
+		}
 		if *phantom < 0 {
 			*phantom = b2i(sstIndexHasPhantom(indexPath, ref))
 		}
@@ -870,6 +875,24 @@ func runSst(res *Result, drv *Driver, seed uint64, n int, tier string, only int)
 	res.Rule = "WriteNext programs (ascending tables and unsorted/repeated/varying-length/empty keys) x fault masks (data append, index append) x 4x4 compression x write/read buffer sizes x bloom sizing, " +
 		"read back through {slice(default), slice, skip, map4, map20, disk} loaders x verify-on-load/verify-on-read with Contains/Get/Scan/ScanStartingAt/ScanRange probes; " +
 		"non-trivial = at least one accepted pair; distinct = distinct (program, options) strings"
+	// corpus first: the hand-written inputs of the counterexample theorems in SST/Props/C03.lean
+	// (case indices 1000000+i so that --only still addresses the generated cases)
+	for ci, c := range sstCorpus() {
+		i := 1000000 + ci
+		if only >= 0 && i != only {
+			continue
+		}
+		r := NewRng(seed, uint64(i))
+		dir := filepath.Join(root, fmt.Sprintf("c%d", ci))
+		if err := os.Mkdir(dir, 0o755); err != nil {
+			return err
+		}
+		res.Stat("corpus")
+		if err := sstOne(res, drv, r, c, i, dir, tier); err != nil {
+			return err
+		}
+		_ = os.RemoveAll(dir)
+	}
 	for i := 0; i < n; i++ {
 		if only >= 0 && i != only {
 			continue
@@ -886,6 +909,26 @@ func runSst(res *Result, drv *Driver, seed uint64, n int, tier string, only int)
 		_ = os.RemoveAll(dir)
 	}
 	return nil
+}
+
+func sstCorpus() []*sstCase {
+	mk := func(style string, kvs ...sstKV) *sstCase {
+		c := &sstCase{dcomp: 0, icomp: 0, wbuf: 4096, rbuf: 4096, bloomN: 1000, bloomP: 0.01, style: style, flavour: "table"}
+		for _, p := range kvs {
+			c.calls = append(c.calls, sstCall{p.key, p.val, 'n'})
+		}
+		return c
+	}
+	// SST.C03.phantomKey: a key embedding a complete valid record whose payload is an index entry for "zz"
+	inner, _ := gproto.Marshal(&sProto.IndexEntry{Key: []byte("zz"), ValueOffset: 8})
+	phantom := append([]byte{9}, encodeRecordRef(inner, false)...)
+	twelve := bytes.Repeat([]byte{2}, 12)
+	return []*sstCase{
+		mk("short4", sstKV{[]byte("a"), []byte("1")}, sstKV{[]byte("a\x00"), []byte("2")}),                  // map_index_pad_collision
+		mk("mid20", sstKV{[]byte{1}, []byte{7}}, sstKV{twelve, []byte{8}}),                                  // disk_index_eof_in_binary_search
+		mk("short4", sstKV{[]byte{5}, []byte{1}}, sstKV{[]byte{6}, []byte{2}}, sstKV{[]byte{7}, []byte{3}}), // disk_index_range_upper_below_min
+		mk("long", sstKV{[]byte{1}, []byte{1}}, sstKV{phantom, []byte{2}}, sstKV{[]byte{200}, []byte{3}}),   // disk_index_phantom_in_index_payload
+	}
 }
 
 func sstOne(res *Result, drv *Driver, r *Rng, c *sstCase, idx int, dir string, tier string) error {
